@@ -73,6 +73,12 @@ pub fn plan_ops(cat: &Catalog, sql: &str, cfg: &ExecCfg) -> Vec<String> {
     r.unwrap_or_default()
 }
 
+/// what `rayon::current_num_threads()` is inside the engine's global pool (the harness itself does not link rayon)
+fn rayon_threads() -> usize {
+    std::env::var("RAYON_NUM_THREADS").ok().and_then(|s| s.parse::<usize>().ok()).filter(|n| *n > 0)
+        .unwrap_or_else(|| std::thread::available_parallelism().map(|n| n.get()).unwrap_or(1))
+}
+
 struct Shape { nkeys: usize, aggs: Vec<(AggFn, bool)>, distinct_select: bool, where_kind: &'static str }
 
 fn gen_table(r: &mut Rng, size_classes: &[String]) -> (TableSpec, String) {
@@ -223,7 +229,7 @@ fn sub_path(top: &str, t: &TableSpec, sh: &Shape, cfg: &ExecCfg, nrows_after_whe
         let _ = nrows_after_where_unknown;
         // HashAggregateExec::execute: > 4 collected batches (or > 50 000 rows) -> aggregate_batches_parallel; not vectorizable
         // (global, or DISTINCT present) and >= 2 threads -> one partial hash table per chunk of batches, then merge
-        let threads = rayon::current_num_threads();
+        let threads = rayon_threads();
         let vectorizable = sh.nkeys > 0 && !has_distinct;
         if !vectorizable && cfg.mem_limit.is_none() && threads >= 2 && !(sh.nkeys == 0 && nb == 1 && sh.aggs.len() == 1 && !has_distinct) {
             if nb > 4 && t.rows.len() <= 50_000 { return "parallel".into(); }
@@ -271,7 +277,7 @@ fn gen_case(r: &mut Rng, n: usize, o: &Opts) -> (Value, Value) {
     if t.rows.is_empty() { tags.push("empty_table".into()); }
     if qualified { tags.push("f:qualified".into()); }
     let mut case = make_case("C21", &cat, &q, &tags, false, &[cfg], false);
-    case["c21"] = json!({"path": path, "op": top, "ops": ops, "nkeys": sh.nkeys, "xty": t.cols[3].cty.name(), "threads": rayon::current_num_threads()});
+    case["c21"] = json!({"path": path, "op": top, "ops": ops, "nkeys": sh.nkeys, "xty": t.cols[3].cty.name(), "threads": rayon_threads()});
     if par { case["tags"].as_array_mut().unwrap().push(json!("s2:par")); }
     // neutraliser of the NULL-grouping-key findings: the same statement over the table with every NULL key replaced by a
     // fresh non-NULL value must be answered correctly (DESIGN §3.4); run only when a key column holds a NULL
